@@ -4,6 +4,10 @@
     arrays with identifiable payloads, arbitrary chi² vector incl. ties, +inf, NaN), then `.sort()`.
     Model side: driver op `sortrows` (= `argsortEF` + `gather`, `sortRows` of Model/Rank.lean).
     Compared modulo the order inside groups of equal chi² (numpy's default sort is not stable).
+(b') the same end-to-end comparison on version-2 *cube* packages (`flux.fits`) fitted at tabulated
+    wavelengths (`Fitter([λ*u.micron, …])`), whose model names have 1..45 characters, some sharing their
+    first 30 characters: `model_name[i]` must be the cube's name of model `model_id[i]`, in full.
+    (Convolved-flux *files* store names in a 30-character column, so long names are confined to this path.)
 (b) *end to end*: `Fitter.fit(source)` on distance-independent packages with duplicated models (exact
     ties) and models pushed to chi² >= 1e30 by violated confidence-1 limits.  Every row of the FitInfo
     (name, model_id, A_V, scale, chi², predicted fluxes) is compared with the per-model values of driver
@@ -32,7 +36,8 @@ RULE = ('cases = (a) chi² vector over {1, 2, 3.5, +inf, NaN} of length 0..5 (or
         'canonical hash of the generated inputs')
 REQUIRED_BRANCHES = ['direct', 'tie', 'inf', 'nan', 'already_ranked', 'reordered', 'no_fluxes', 'with_fluxes',
                      'e2e', 'e2e_tie', 'e2e_1e30', 'e2e_clamped', 'e2e_reordered',
-                     'e2e3d', 'e2e3d_tie', 'e2e3d_remove_resolved', 'e2e3d_reordered']
+                     'e2e3d', 'e2e3d_tie', 'e2e3d_remove_resolved', 'e2e3d_reordered',
+                     'e2e_cube', 'e2e_cube_long_names', 'e2e_cube_shared_prefix', 'e2e_cube_reordered']
 ASSUMPTIONS = ['order inside a group of equal chi² is not compared (numpy.argsort default kind is not stable)',
                'end-to-end: chi² values closer than 1e-9 (relative) are treated as one tie group; IEEE rounding is not '
                'modelled (tolerance 1e-9 x condition number); rows whose clamp/limit decision margin is below 1e-7 are skipped',
@@ -42,6 +47,7 @@ ASSUMPTIONS = ['order inside a group of equal chi² is not compared (numpy.argso
 EXHAUSTIVE = {'quick': False, 'thorough': True}
 N_E2E = {'quick': 45, 'thorough': 900}
 N_E2E3D = {'quick': 14, 'thorough': 250}
+N_CUBE = {'quick': 24, 'thorough': 400}
 N_DIRECT_QUICK = 700
 
 
@@ -93,6 +99,8 @@ def gen_cases(seed, tier):
     yield direct_case([I, I, 1, 1, Nn, 1], True)
     for i, d in enumerate(['dup', 'big', 'clamp_low', 'clamp_high']):
         yield gen_e2e(case_rng(seed, PID, 'directed-%d' % i), d)
+    yield gen_cube(case_rng(seed, PID, 'directed-cube-0'), directed=True)
+    yield gen_cube(case_rng(seed, PID, 'directed-cube-1'), directed=True)
     yield gen_e2e3d(case_rng(seed, PID, 'directed-3d-0'), resolved=True, dup=True)
     yield gen_e2e3d(case_rng(seed, PID, 'directed-3d-1'), resolved=True, dup=True)
     if tier == 'thorough':
@@ -112,6 +120,45 @@ def gen_cases(seed, tier):
         yield gen_e2e(case_rng(seed, PID, 'e%d' % k))
     for k in range(N_E2E3D[tier]):
         yield gen_e2e3d(case_rng(seed, PID, 'f%d' % k))
+    for k in range(N_CUBE[tier]):
+        yield gen_cube(case_rng(seed, PID, 'g%d' % k))
+
+
+def cube_names(rng, nm, long_names=True):
+    """distinct model names of 1..45 characters; with `long_names` some exceed 30 characters and some of
+    those share their first 30 characters"""
+    alpha = 'abcdefghijklmnopqrstuvwxyzABCDEFGHIJKLMNOPQRSTUVWXYZ0123456789_-.'
+    word = lambda n: ''.join(rng.choice(alpha) for _ in range(n))
+    names = []
+    prefix = word(30)
+    while len(names) < nm:
+        u_ = rng.random()
+        if long_names and u_ < 0.35:
+            n = prefix + word(rng.randint(1, 15))                 # shares 30 characters with its siblings
+        elif long_names and u_ < 0.6:
+            n = word(rng.randint(31, 45))
+        else:
+            n = word(rng.randint(1, 30))
+        if n not in names:
+            names.append(n)
+    return names
+
+
+def gen_cube(rng, directed=False):
+    case = gen_e2e(rng, 'dup' if directed else None)
+    case['pkg'] = 'cube'
+    nm = len(case['models'])
+    names = cube_names(rng, nm)
+    if directed:
+        # at least two names that differ only after the 30th character, and one other long name
+        pre = 'model_with_a_very_long_name_30'
+        assert len(pre) == 30
+        fixed = [pre + '_A', pre + '_B', 'x' * 45, 'q']
+        for i, n in enumerate(fixed[:nm]):
+            names[i] = n
+        rng.shuffle(names)
+    case['names'] = names
+    return case
 
 
 def gen_e2e3d(rng, resolved=None, dup=None):
@@ -249,13 +296,40 @@ def check_rows_property(rows, chi2, pay):
 
 # ----------------------------------------------------------------------------- (b) end to end
 
+def build_cube(case, d):
+    """version-2 package: the case's models as an SED cube tabulated at the fitted wavelengths (plus one
+    more), one aperture, fitted at those wavelengths"""
+    from astropy import units as u
+    names = list(case['names'])
+    nm = len(names)
+    extra = float('%.3g' % (max(case['wavs']) * 2.5))
+    wav = sorted(list(case['wavs']) + [extra])
+    val = np.ones((nm, 1, len(wav)))
+    for j, w in enumerate(case['wavs']):
+        val[:, 0, wav.index(w)] = [case['models'][i][j] for i in range(nm)]
+    pk.write_cube_package(d, names, wav, val, np.zeros_like(val), apertures_au=None, aperture_dependent=False)
+    unit, tab, _, _ = c01.table_in_unit(case)
+    ext = pk.make_extinction(tab, case['tab_chi'], wav_unit=unit)
+    fitter = pk.make_fitter(d, [w * u.micron for w in case['wavs']], [1.] * len(case['wavs']), ext, case['av'],
+                            use_memmap=False)
+    return fitter, names
+
+
 def run_e2e(case):
     d = tempfile.mkdtemp(prefix='c04_')
     br = {'e2e'}
     relaxed = 0
     key = common.canon_hash(case)
     try:
-        fitter, names = c01.build(case, d)
+        if case.get('pkg') == 'cube':
+            fitter, names = build_cube(case, d)
+            br.add('e2e_cube')
+            if any(len(n) > 30 for n in names):
+                br.add('e2e_cube_long_names')
+            if len({n[:30] for n in names}) < len(names):
+                br.add('e2e_cube_shared_prefix')
+        else:
+            fitter, names = c01.build(case, d)
         nm = len(names)
         lo, hi = case['av']
         nontrivial = False
@@ -282,6 +356,8 @@ def run_e2e(case):
                                   violates=True, branches=br, key=key)
             if got['model_id'] != sorted(got['model_id']):
                 br.add('e2e_reordered')
+                if case.get('pkg') == 'cube':
+                    br.add('e2e_cube_reordered')
             skip_order = False
             for i, m in enumerate(got['model_id']):
                 e = exp[m]
